@@ -1,5 +1,5 @@
 /-
-  Pulsar.Proofs.GoSrcSov — runtime.Sov / runtime.Soz
+  Pulsar.Proofs.GoSrcSov — runtime.Sov
   (functions translated from the Go source on every run, `Pulsar/ExtractedFns.lean`, related to the hand-written
   models the property theorems are about; see Pulsar/Proofs/GoSrcBase.lean).
 -/
@@ -15,27 +15,13 @@ theorem bitLen_or_one_le (x : Nat) (hx : x < 18446744073709551616) : bitLen (x |
   apply bitLen_le_of_lt_two_pow 64
   exact Nat.or_lt_two_pow (by simpa using hx) (by decide)
 
+/-- by exhaustion over the 65 possible bit lengths: whatever arithmetic the source uses to turn `bits.Len64(x|1)`
+    into a byte count is evaluated for each of them (robust against rewrites of the formula) -/
 theorem src_Sov (x : Nat) (hx : x < 18446744073709551616) : Xf.runtime_Sov x = .ok (sov x : Int) := by
   have hb := bitLen_or_one_le x hx
   unfold Xf.runtime_Sov sov Go.bitsLen64
   generalize bitLen (x ||| 1) = n at hb ⊢
-  have e1 : wrap64 ((n : Int) + 6) = (n : Int) + 6 := wrap64_id (by omega) (by omega)
-  have e2 : Int.tdiv ((n : Int) + 6) 7 = ((n : Int) + 6) / 7 := Int.tdiv_eq_ediv_of_nonneg (by omega)
-  have e3 : wrap64 (((n : Int) + 6) / 7) = ((n : Int) + 6) / 7 := wrap64_id (by omega) (by omega)
-  rw [e1, e2, e3]
-  simp only [Res.pure_eq]
-  congr 1
-
-theorem src_Soz (x : Nat) (hx : x < 18446744073709551616) : Xf.runtime_Soz x = .ok (soz x : Int) := by
-  unfold Xf.runtime_Soz soz
-  have e : Int.toNat (((wrap64 (x : Int)) / (9223372036854775808 : Int)) % 18446744073709551616)
-      = (if x < 9223372036854775808 then 0 else 18446744073709551615) := by
-    simp only [wrap64]
-    split <;> split <;> omega
-  rw [e, src_Sov _ (by
-    apply Nat.xor_lt_two_pow (n := 64)
-    · exact Nat.mod_lt _ (by decide)
-    · split <;> decide)]
-  rfl
+  revert n
+  decide
 
 end Pulsar
